@@ -29,7 +29,8 @@ ROUTES = {
     "Namespace": ["deepcopy", "clone2", "clone1", "tns_copy", "ctor", "copy", "clone0"],
 }
 MODEL_OPS = ["SetLabel", "SetLength", "SetNodeLabel", "RelabelTaxon", "AddTaxon", "AddAnnotation", "ChangeAnnotation",
-             "ChangeBoundAttr", "Encode", "Structural", "SetCell", "AddComment"]
+             "ChangeBoundAttr", "Encode", "Structural", "SetCell", "AddComment", "AnnotateNamespace"]
+CONFIGS = ["default", "ns_locked", "ns_case", "unrooted", "rooting_none", "weighted", "unlabelled"]
 EXTRA_OPS = ["SetExtra", "SetRooting", "AnnotateDeep"]      # random driver only
 
 
@@ -184,6 +185,32 @@ def build_object(d, cls, v, rng):
     raise core.MachineryError("unknown class " + cls)
 
 
+def apply_conf(d, obj, cls, conf):
+    """object configuration (spec/CopySem.tla, Configs): settings that are part of the instance state of the
+    copied object and must not change the depth of any copy route"""
+    ns = obj if cls == "Namespace" else obj.taxon_namespace
+    trees = [obj] if cls == "Tree" else list(obj._trees) if cls == "TreeList" else []
+    if conf == "ns_locked":
+        ns.is_mutable = False
+    elif conf == "ns_case":
+        ns.is_case_sensitive = True
+    elif conf == "unrooted":
+        for t in trees:
+            t.is_rooted = False
+    elif conf == "rooting_none":
+        for t in trees:
+            t.is_rooted = None
+    elif conf == "weighted":
+        for t in trees:
+            t.weight = 2.5
+    elif conf == "unlabelled":
+        obj.label = None
+        for t in trees:
+            t.label = None
+    elif conf != "default":
+        raise core.MachineryError("unknown configuration " + conf)
+
+
 # --------------------------------------------------------------------------- copy routes
 def do_copy(d, x, cls, route, arg):
     if route == "deepcopy":
@@ -336,8 +363,13 @@ def apply_op(d, root, cls, op, arg, rng):
         taxa[arg % len(taxa)].label = _fresh(rng, "X")
         return "taxon.label"
     if op == "AddTaxon":
+        if not ns.is_mutable:
+            return None             # documented: taxa cannot be added to an immutable namespace
         ns.new_taxon(_fresh(rng, "N"))
         return "new_taxon"
+    if op == "AnnotateNamespace":
+        ns.annotations.add_new(_fresh(rng, "nsa"), rng.randrange(100))
+        return "namespace.annotations.add_new"
     if op == "AddAnnotation":
         objs = _annotables(root, cls)
         o = objs[arg % len(objs)] if arg % 4 else root
@@ -406,6 +438,10 @@ def apply_op(d, root, cls, op, arg, rng):
             return "seq[j]="
         if op == "Structural":
             k = arg % 3
+            if (k == 0 or not taxa_with) and not ns.is_mutable:
+                k = 2
+                if not taxa_with:
+                    return None
             if k == 0 or not taxa_with:
                 t = ns.new_taxon(_fresh(rng, "S"))
                 src_seq = root[taxa_with[0]] if taxa_with else []
@@ -435,8 +471,10 @@ def run_case(case):
     rng = random.Random(case["seed"])
     cls = case["cls"]
     obj = build_object(d, cls, case["variant"], rng)
+    conf = case.get("conf", "default")
+    apply_conf(d, obj, cls, conf)
     w = X.World()
-    evs = [{"action": "Init", "cls": cls, "g": w.graph([obj]), "src": w.oid(obj), "vs": X.view_of(obj)}]
+    evs = [{"action": "Init", "cls": cls, "conf": conf, "g": w.graph([obj]), "src": w.oid(obj), "vs": X.view_of(obj)}]
     src, cpy = obj, None
     for k, step in enumerate(case["steps"]):
         arg = case.get("arg", 0) + 13 * k if len(step) < 4 else step[3]
@@ -514,8 +552,8 @@ def variants(cls, shape, quick):
             {"name": "ns4-holes", "ntax": 4, "ns_ann": True, "ns_holes": [0, 2], "bitmask": True, "extra": True}]
 
 
-def model_cases(ctx, cfg):
-    dot = os.path.join(ctx.work, "c12.dot")
+def model_cases(ctx, cfg, smallest_only=False):
+    dot = os.path.join(ctx.work, "c12_%s.dot" % cfg)
     ctx.model("MC_CopySem", cfg, extra=("-dump", "dot,actionlabels", dot), heap="2g", workers=4)
     inits, edges, states = tlaval.read_dot(dot)
     paths, root = tlaval.shortest_paths(inits, edges)
@@ -534,12 +572,14 @@ def model_cases(ctx, cfg):
         if any(s[0] in ("Copy", "Recopy") and s[1] not in ROUTES[cls] for s in steps):
             continue
         vs = variants(cls, init["g"]["kind"], ctx.quick)
+        if smallest_only:
+            vs = vs[:1] if ctx.quick else vs[:2]
         for vi, var in enumerate(vs):
             if ctx.quick and vi != nedges % len(vs):
                 continue        # quick tier: the variants take turns
             if not ctx.quick and len(steps) > 2 and vi != (0 if nedges % 3 else (nedges // 3) % len(vs)):
                 continue        # thorough, histories longer than copy + one step: two in three on the smallest variant
-            cases.append({"kind": "path", "cls": cls, "variant": var, "steps": steps,
+            cases.append({"kind": "path", "cls": cls, "conf": init.get("conf", "default"), "variant": var, "steps": steps,
                           "seed": ctx.seed * 1000003 + nedges * 7 + vi, "arg": (nedges + vi) % 97})
     return cases, nedges
 
@@ -584,7 +624,10 @@ def random_case(rng, k, seed):
             steps.append(["Recopy", rng.choice(ROUTES[cls])])
         else:
             steps.append(["Mutate", rng.choice(["src", "cpy"]), rng.choice(MODEL_OPS + EXTRA_OPS), rng.randrange(10 ** 4)])
-    return {"kind": "random", "cls": cls, "variant": var, "steps": steps, "seed": seed}
+    conf = rng.choice(CONFIGS) if rng.random() < 0.6 else "default"
+    if conf in ("unrooted", "rooting_none", "weighted") and cls not in ("Tree", "TreeList"):
+        conf = "ns_locked"
+    return {"kind": "random", "cls": cls, "conf": conf, "variant": var, "steps": steps, "seed": seed}
 
 
 BROKEN = [("Broken_CopySem_no_preseed_taxa.cfg", "EqualAfterCopy"),
@@ -592,7 +635,8 @@ BROKEN = [("Broken_CopySem_no_preseed_taxa.cfg", "EqualAfterCopy"),
           ("Broken_CopySem_share_comments_visible.cfg", "MutationNotVisibleThroughOther"),
           ("Broken_CopySem_annset_keeps_target.cfg", "BoundAnnotationsFollowCopy"),
           ("Broken_CopySem_thin_shares_edge.cfg", "SharingExactlyAsDocumented"),
-          ("Broken_CopySem_clone1_shares_trees.cfg", "SharingExactlyAsDocumented")]
+          ("Broken_CopySem_clone1_shares_trees.cfg", "SharingExactlyAsDocumented"),
+          ("Broken_CopySem_locked_ns_shared.cfg", "SharingExactlyAsDocumented")]
 
 
 def _split_drift(ctx):
@@ -618,7 +662,12 @@ def run(ctx):
         f_replay = ex.submit(model_cases, ctx, "MC_CopySem_replay_quick.cfg" if quick else "MC_CopySem_replay_thorough.cfg")
         f_broken = [ex.submit(ctx.model, "MC_CopySem", cfg, expect_violation=inv, count=False, heap="1g", workers=2)
                     for cfg, inv in BROKEN]
+        # 2b. the object-configuration dimension: every class x configuration x route x (relabel a taxon, annotate
+        #     the namespace, relabel the object) - this run both checks the model and dumps the transitions
+        f_conf = ex.submit(model_cases, ctx, "MC_CopySem_conf_quick.cfg" if quick else "MC_CopySem_conf_thorough.cfg", True)
         cases, nedges = f_replay.result()
+        ccases, cedges = f_conf.result()
+        cases, nedges = cases + ccases, nedges + cedges
         for f in f_broken:
             f.result()
         f_main.result()
@@ -629,7 +678,7 @@ def run(ctx):
     # drive and judge in chunks (bounded memory: the heavy projected states of traces without a failing
     # verdict are dropped once TLC has judged them; traces with a verdict stay complete for the replay file)
     allcases = cases + rnd
-    chunk = 1500
+    chunk = 3000 if quick else 1500
     first = last = None
     for c0 in range(0, len(allcases), chunk):
         driven = ctx.drive(allcases[c0:c0 + chunk], run_case)
@@ -641,9 +690,9 @@ def run(ctx):
             for e in evs:
                 if e["action"] == "Copy":
                     route = e["route"]
-                    ctx.add_nontrivial(["copy", case["cls"], case["variant"]["name"], route, e["from"]])
+                    ctx.add_nontrivial(["copy", case["cls"], case.get("conf", "default"), case["variant"]["name"], route, e["from"]])
                 elif e["action"] == "Mutate" and e["raised"] == "":
-                    ctx.add_nontrivial(["mutate", case["cls"], case["variant"]["name"], route, e["side"], e["op"], e["desc"]])
+                    ctx.add_nontrivial(["mutate", case["cls"], case.get("conf", "default"), case["variant"]["name"], route, e["side"], e["op"], e["desc"]])
         if driven:
             first = first or driven[0]
             last = driven[-1]
@@ -657,7 +706,7 @@ def run(ctx):
     ctx.rule = ("cases = one real execution per transition of the dumped TLC state graph of MC_CopySem (%d transitions: "
                 "initial graph x copy route x history of mutations / copies of the copy) on each real variant of the "
                 "transition's class, + %d seeded random histories on larger objects; distinct_nontrivial counts distinct "
-                "(copy: class, variant, route, copied-from) and (mutation: class, variant, route, side, operation, effect) "
+                "(copy: class, configuration, variant, route, copied-from) and (mutation: class, configuration, variant, route, side, operation, effect) "
                 "combinations that were actually executed without raising" % (nedges, nrand))
     ctx.exhaustive = False
     import resource
@@ -671,10 +720,10 @@ def run(ctx):
     ctx.assumptions.append("object digests and the canonical 'full' view are crc32 values computed by the projection; TLC compares them")
     if driven:
         c0, e0 = driven[0]
-        ctx.add_sample({"case": {k: c0[k] for k in ("cls", "steps", "seed")}, "variant": c0["variant"]["name"],
+        ctx.add_sample({"case": {k: c0.get(k) for k in ("cls", "conf", "steps", "seed")}, "variant": c0["variant"]["name"],
                         "events": [{k: e[k] for k in e if k not in ("g", "vs", "vc")} for e in e0]})
         c1, e1 = driven[-1]
-        ctx.add_sample({"case": {k: c1[k] for k in ("cls", "steps", "seed")}, "variant": c1["variant"]["name"],
+        ctx.add_sample({"case": {k: c1.get(k) for k in ("cls", "conf", "steps", "seed")}, "variant": c1["variant"]["name"],
                         "events": [{k: e[k] for k in e if k not in ("g", "vs", "vc")} for e in e1]})
 
 
